@@ -66,6 +66,10 @@
 (*   order-inverted                 rin[g] < rin[h] and rst[g] > rst[h]    *)
 (*   chi0-frozen-or-floored         chi = 0 and some grain not kept or     *)
 (*                                  with rdev > Tol                        *)
+(*   zero-rate-floored-grain-rotated, zero-rate-floor-not-applied          *)
+(*                                  updates in a regime without volume     *)
+(*                                  rates, judged from the snapshots alone *)
+(*                                  (see ZeroRateVerdicts)                 *)
 (* Clauses starting with "trace-" blame the recorder, not PyDRex.          *)
 (*                                                                         *)
 (* SECOND USE (cfg GbsScen / GbsScen_thorough): the scenario classes of    *)
@@ -106,9 +110,27 @@ HookFields(e) == /\ \A k \in {"below", "masked", "kept", "fdev", "rdev", "rin", 
 \* clause over a set of offending grains: <<clause, first grain, how many>>
 Over(clause, B) == IF B = {} THEN <<>> ELSE <<<<clause, Min(B), Cardinality(B)>>>>
 
+\* Updates whose volume RATES are zero by definition (the two viscosity-bound regimes and the diffusion regime;
+\* C07): the integrated volume of a grain is the volume it started the update with, so which grains are under
+\* the threshold is known from the two snapshots alone - no observation inside the solver is needed:
+\*   zero-rate-floored-grain-rotated   a grain that started under the threshold does not end with exactly the
+\*                                     orientation it started with
+\*   zero-rate-floor-not-applied       a grain g that started under the threshold was not lifted to the floor:
+\*                                     flooring (at least once) and renormalising gives
+\*                                     f'[g] / f'[h] >= (chi/n) / f[h] for every grain h that started above it;
+\*                                     zlift[g] is the worst shortfall of that ratio in 1e-15 units
+ZeroRateFields(e) == /\ \A k \in {"zbelow", "zfrozen", "zlift"} : SeqOfLen(e, k, e.n)
+                     /\ \A g \in G(e) : e.zlift[g] >= 0
+ZeroRateVerdicts(e) ==
+    IF ~Has(e, "zbelow") THEN <<>>
+    ELSE IF ~ZeroRateFields(e) THEN <<<<"trace-malformed-line", 0, 1>>>>
+    ELSE   Over("zero-rate-floored-grain-rotated", {x \in G(e) : e.zbelow[x] /\ ~e.zfrozen[x]})
+        \o Over("zero-rate-floor-not-applied", {x \in G(e) : e.zbelow[x] /\ e.zlift[x] > Tol})
+
 SnapshotVerdicts(e) ==
        (IF e.sumdev > Tol THEN <<<<"sum-not-1", 0, 1>>>> ELSE <<>>)
     \o (IF e.minshort > Tol THEN <<<<"minimum-below-bound", 0, 1>>>> ELSE <<>>)
+    \o ZeroRateVerdicts(e)
 
 HookVerdicts(e) ==
     LET g == G(e) IN
@@ -166,6 +188,9 @@ TexSeq == <<"random", "nonuniform">>
 FlowSeq == IF Tier = "thorough" THEN <<"ss_xz", "pure_xy", "gen3d", "ss_yx", "axi_c", "tdep">>
            ELSE <<"ss_xz", "pure_xy", "gen3d">>
 
+\* regime programme of a history: the first 3/5 of the updates shrink grains through the threshold in a
+\* dislocation-type regime, the remaining ones run in the named regime (4 = stay in matrix_dislocation)
+RegSeq == <<<<4, 4>>, <<4, 1>>, <<4, 7>>, <<6, 0>>>>
 Selected(a, b, m, d, t, f) == Tier = "thorough" \/ (a + b + m + d + t + f) % 6 = 0
 
 ScenInit == /\ l = 0 /\ last = <<>> /\ nbad = 0 /\ nhook = 0
@@ -175,6 +200,7 @@ ScenInit == /\ l = 0 /\ last = <<>> /\ nbad = 0 /\ nhook = 0
                  /\ cur = [phase |-> FabSeq[a].phase, fabric |-> FabSeq[a].fabric, chi |-> ChiSeq[b],
                            M |-> MobSeq[m], n |-> NSeq[d], tex |-> TexSeq[t], fl |-> FlowSeq[f],
                            nupd |-> 10 + 5 * ((a + b + m) % 3),
+                           rp |-> RegSeq[1 + ((a + 2 * b + m + d + t) % 4)],
                            id |-> <<a, b, m, d, t, f>>]
 ScenNext == UNCHANGED tvars
 EmitScen == PrintT(<<"SCEN", ToJson(cur)>>)
